@@ -42,16 +42,26 @@ package probdist
 //@   loop 1 invariant -1 <= rangeindex && rangeindex < len(w.weights) && len(w.weights) == len(w.values) && fresh(w.weights) && unchanged(w.values)
 //@   ensures [C12:one_weight_per_value] len(w.weights) == len(w.values) && fresh(w.weights)
 
+// Floating point is uninterpreted in this verifier, so "exact" can only be stated structurally: the
+// scaled probability of index i is weight_i * n / (sum of ALL weights), built by exactly those float64
+// operations, the sum being the left-to-right float64 sum FSUM.
+//@ spec fn FSUM(a Arr, lo Int, hi Int) Int
+//@ axiom [fsum_empty] forall a Arr, lo Int :: withpat(FSUM(a, lo, lo) == f64const(0), FSUM(a, lo, lo))
+//@ axiom [fsum_step] forall a Arr, lo Int, hi Int :: withpat(lo < hi ==> FSUM(a, lo, hi) == f64add(FSUM(a, lo, hi - 1), aget(a, hi - 1)), FSUM(a, lo, hi))
+
 //@ func (*WeightedDist).genTables(w) ()
 //@   serves C12
 //@   requires w != nil && 1 <= len(w.weights)
 //@   modifies w.prob, w.alias, private(alloftype("*list.List")), private(alloftype("*list.Element"))
 //@   ghost N := len(w.weights)
 //@   loop 1 invariant -1 <= rangeindex && rangeindex < N && n == N && unchanged(w.weights)
+//@   loop 1 invariant [C12:sum_is_the_sum_of_all_weights] sum == FSUM(arr(w.weights), offset(w.weights), offset(w.weights) + rangeindex + 1)
 //@   loop 2 invariant unchanged(w.weights) && -1 <= rangeindex && rangeindex < N && n == N && len(alias) == N && len(prob) == N && len(scaled) == N && fresh(alias) && fresh(prob) && fresh(scaled) && offset(alias) == 0
 //@   loop 2 invariant small != nil && large != nil && fresh(small) && fresh(large) && small != large && idxList(small, N) && idxList(large, N)
 //@   loop 2 invariant [C12:every_index_on_exactly_one_worklist] (small.ltail - small.lhead) + (large.ltail - large.lhead) == rangeindex + 1
 //@   loop 2 invariant forall(j, 0, N, aget(arr(alias), j) == 0)
+//@   loop 2 invariant [C12:weights_normalised_by_their_sum] offset(scaled) == 0 && sum == FSUM(arr(w.weights), offset(w.weights), offset(w.weights) + N)
+//@       && forall(j, 0, rangeindex + 1, withpat(aget(arr(scaled), j) == f64div(f64mul(aget(arr(w.weights), offset(w.weights) + j), f64ofint(N)), sum), aget(arr(scaled), j)))
 //@   loop 3 invariant n == N && len(alias) == N && len(prob) == N && len(scaled) == N && fresh(alias) && fresh(prob) && fresh(scaled) && offset(alias) == 0
 //@   loop 3 invariant small != nil && large != nil && fresh(small) && fresh(large) && small != large && idxList(small, N) && idxList(large, N)
 //@   loop 3 invariant [C12:alias_in_range] forall(j, 0, N, 0 <= aget(arr(alias), j) && aget(arr(alias), j) < N)
